@@ -273,7 +273,13 @@ pub enum Op {
     Rollback,
     /// replace the tree by the crash image of the previous run taken at scheduler step `step`;
     /// files written by the action at that step are torn according to `torn` (seeded)
-    CrashImage { step: usize, torn: u64 },
+    CrashImage {
+        step: usize,
+        torn: u64,
+        /// count `step` among the actions that changed the tree only (crash inside a write)
+        #[serde(default)]
+        writing: bool,
+    },
 }
 
 #[derive(Clone, Debug, Serialize, Deserialize, PartialEq)]
